@@ -71,12 +71,16 @@ static void park_consumer(const char *where)
 	g.cparked = false;
 }
 
+static int g_sched_no = 0;               // number of the schedule being run (selects the park position inside push)
 static thread_local int tl_prod = 0;     // producer number of this thread while it runs an R step
 #ifdef FIX8_VERIF
 static void yield_hook(const char *label, long)
 {
 	const int p = tl_prod;
-	if (!p || strcmp(label, "push.publish"))
+	// a producer is parked inside its push either after the ticket CAS and before the sub-queue push ("push.subpush")
+	// or after the sub-queue push and before the publish ("push.publish"): the same position of Logger.tla (ticket
+	// taken, element not published), alternating with the schedule number and the producer
+	if (!p || strcmp(label, ((g_sched_no + p) & 1) ? "push.subpush" : "push.publish"))
 		return;
 	std::unique_lock<std::mutex> lk(g.m);
 	if (!g.active || !g.ppark[p])
@@ -421,6 +425,7 @@ static void run_sched(const std::string& dir, const std::vector<std::string>& t)
 	sj += "]";
 	pj::Ev("Reset").s("mode", "sched").i("id", id).i("np", np).i("nl", 0).i("stopafter", 0).raw("sched", sj).emit();
 	g_tick = 0; g_done = 0;
+	++g_sched_no;
 	{ std::lock_guard<std::mutex> lk(g.m); g.active = true;
 	  for (int p = 0; p < 9; ++p) g.ppark[p] = g.pparked[p] = g.prelease[p] = false; }
 	g_cur_path = path;
